@@ -2753,7 +2753,11 @@ func (p *parser) parseRHSOrTypeEx(allowTuple bool) (x ast.Expr, isTuple bool) {
 }
 
 func (p *parser) parseRHSOrType() ast.Expr {
-	x, _ := p.parseRHSOrTypeEx(false)
+	x, isTuple := p.parseRHSOrTypeEx(false)
+	if isTuple { // msgTupleNotSupported was already reported by parseLambdaExpr
+		t := x.(*tupleExpr)
+		x = &ast.BadExpr{From: t.opening, To: t.closing}
+	}
 	return x
 }
 
